@@ -219,14 +219,14 @@ CLAIMED = {
              'kernels, v-parallel evaluation step, flux_advection) is executed symbolically next to the reference; z3 decides equality '
              'of all outputs and in-place results on every path; functions a copy does not define are reported. Of the main clause (the '
              'pyccel-compiled shared objects equal the interpreted source; the documented build succeeds) three things are decided: (1) '
-             'each kernel module, transformed so that it behaves in Python as the generated Fortran does at two modelled divergences (D1 '
+             'each kernel module, transformed so that it behaves in Python as the generated Fortran does at three modelled divergences (D1 '
              'assignment to an array argument writes through to the caller; D2 a loop variable after a completed loop is one step past the '
-             'last value), equals the untouched module on every path of the same scenarios (solver); counter-models are replayed on a real '
+             'last value; D3 a negative non-literal index does not wrap), equals the untouched module on every path of the same scenarios (solver); counter-models are replayed on a real '
              'scratch pyccel build against the interpreted module; (2) the scratch pyccel build of the five modules with the documented '
-             'flags succeeds (after a control build); (3) build and source agree on one concrete many-sweeps implicit step. The generated '
+             'flags succeeds (after a control build); (3) build and source agree on two concrete float scenarios (many-sweeps implicit step; uniform-cubic kernels at points k*dx). The generated '
              'Fortran itself is NOT encoded: any other way in which a build could differ from its source is undecided.',
         design_ref='DESIGN.md 5 (C19) and 8',
-        note=TRUST + 'No Fortran/LLVM-IR-to-SMT engine is available, so compiled artefacts are outside this claim except for the two modelled divergences; numba/pythran compilation '
+        note=TRUST + 'No Fortran/LLVM-IR-to-SMT engine is available, so compiled artefacts are outside this claim except for the three modelled divergences; numba/pythran compilation '
                      'itself is not exercised (copies run as Python); poloidal steps and get_lagrange_vals of the copies are not exercised.'),
     'C20': dict(
         category='proof',
